@@ -21,7 +21,7 @@ import graphenc  # noqa: E402
 import solver_oracles  # noqa: E402
 import solverlib  # noqa: E402
 
-MODES = ["calm", "conflict", "extras", "dense", "cascade", "deepconflict"]
+MODES = ["calm", "conflict", "extras", "dense", "cascade", "deepconflict", "triconflict"]
 
 
 def klass(pid: str, why: str) -> str:
